@@ -6,7 +6,7 @@ coqc) and independent Python oracles: integers of every width around every bound
 (ASCII, escapes, Latin-1, BMP, astral), include_bytes from several working directories."""
 import data_engine
 
-GEN_UNITS = ['Encoders', 'Criteria']          # Model/Passes.v (the pass model the theorems are about) is built on them
+GEN_UNITS = ['Encoders', 'Criteria', 'Sizes']          # Model/Passes.v (the pass model the theorems are about) is built on them
 EXES = []                                     # the Spec oracle is evaluated by coqc directly (Spec/Data.v, Spec/Utf8.v)
 ASSUMPTIONS = [
     'IShort / IPack items carry the integer that resolve_immediates computed (FInt v); sequence elements are tokens that int(tok, 0) reads',
@@ -26,7 +26,9 @@ CLAIM = dict(
          'model) accept exactly the documented range and emit exactly the documented little/big-endian two\'s-complement bytes (Spec/Data.v), '
          'refusing everything else; C10_bytes_meaning / C10_twos_complement: those byte strings read back as the number; C10_utf8_roundtrip / '
          'C10_utf8_strict / C10_utf8_bytes: the Spec UTF-8 encoder is inverted by the strict decoder of the standard on every valid text and the '
-         'decoder accepts nothing else; C10_sizes: on ANY item list the data passes accept, size() of each item equals the length of its final '
+         'decoder accepts nothing else; C10_size_from_source / C10_tables_from_source / C10_spec_tables_from_source / C10_formats_match_sizes: '
+         'the model size(), width and format tables and the Spec directive tables EQUAL what is regenerated from the size() methods and '
+         'dictionaries of asm.py on every run; C10_sizes: on ANY item list the data passes accept, size() of each item equals the length of its final '
          'chunk and every include_bytes file had the announced size; C10_string / C10_include_bytes: pass-through facts. Tie: pipeline '
          'correspondence of the pass model on data-heavy programs. Falsifier: real assembler vs the Coq Spec (coqc) and CPython oracles over all '
          'widths x bounds, all pack formats, ASCII / escape / Latin-1 / BMP / astral strings, include_bytes beside the source, in '
